@@ -118,6 +118,14 @@ type SpecSet struct {
 	FuncTypes  map[string]*FuncContract
 	Guards     []GuardDecl
 	LockInvs   []LockInv
+	Macros     map[string]*Macro
+}
+
+// Macro: a named contract expression with parameters, expanded where it is used (it may read the heap).
+type Macro struct {
+	Name   string
+	Params []string
+	Body   Expr
 }
 
 type GuardDecl struct {
@@ -201,7 +209,7 @@ func readContractLines(path string, requirePrefix bool) ([]rawLine, string, erro
 var clauseKeywords = map[string]bool{"requires": true, "ensures": true, "invariant": true, "modifies": true, "pure": true,
 	"trusted": true, "may_panic": true, "loop": true, "func": true, "extern": true, "functype": true, "lemma": true,
 	"sort": true, "fn": true, "axiom": true, "ghost": true, "pkgframe": true, "guarded": true, "lockinv": true,
-	"acquires": true, "releases": true, "opaque": true, "reveal": true, "uses": true, "allocates": true, "noaxioms": true, "ghostset": true, "before_call": true, "crashinv": true, "note": true, "recfn": true, "props": true}
+	"acquires": true, "releases": true, "opaque": true, "reveal": true, "uses": true, "allocates": true, "noaxioms": true, "ghostset": true, "before_call": true, "macro": true, "crashinv": true, "note": true, "recfn": true, "props": true}
 
 func firstWord(s string) (string, string) {
 	s = strings.TrimSpace(s)
@@ -358,6 +366,20 @@ func parseDirectives(lines []rawLine, pkgPath string, spec *SpecSet, contracts m
 			}
 		case "sort":
 			spec.Sorts[strings.TrimSpace(d.rest)] = true
+		case "macro":
+			// macro name(p1, p2) = expr
+			i := strings.Index(d.rest, "(")
+			j := strings.Index(d.rest, ")")
+			k := strings.Index(d.rest, "=")
+			if i < 0 || j < i || k < j {
+				return fmt.Errorf("%s:%d: macro needs 'name(params) = expr'", d.file, d.line)
+			}
+			body, err := ParseExpr(d.rest[k+1:])
+			if err != nil {
+				return fmt.Errorf("%s:%d: %v", d.file, d.line, err)
+			}
+			name := strings.TrimSpace(d.rest[:i])
+			spec.Macros[name] = &Macro{Name: name, Params: splitNames(d.rest[i+1 : j]), Body: body}
 		case "before_call":
 			// before_call callee#k [label] expr
 			if cur == nil {
@@ -564,7 +586,7 @@ func qualifyFuncName(pkgPath, name string) string {
 }
 
 func NewSpecSet() *SpecSet {
-	return &SpecSet{Sorts: map[string]bool{}, PkgFrames: map[string]bool{}, FuncTypes: map[string]*FuncContract{}}
+	return &SpecSet{Sorts: map[string]bool{}, PkgFrames: map[string]bool{}, FuncTypes: map[string]*FuncContract{}, Macros: map[string]*Macro{}}
 }
 
 // LoadContracts reads spec files and the repository's contract files.
